@@ -25,15 +25,20 @@ try:
     demo = meta.get("demo", "")
     copies = re.findall(r"cp\s+\S*/([\w.]+_test\.go)\s+(\S+)", demo)
     tests = re.findall(r"go test (.*?)(?:\s+#|$|&&|;)", demo)
+    def local(dst):
+        # demo commands name the seeding agent's own worktree; redirect into ours
+        dst = re.sub(r"^/tmp/wt/seed-C\d\d/", "", dst)
+        return os.path.join(wt, dst)
+    copies = [(fn, local(dst)) for fn, dst in copies]
     for fn, dst in copies:
-        shutil.copy(os.path.join(seed, fn), os.path.join(wt, dst))
+        shutil.copy(os.path.join(seed, fn), dst)
     cmd = "go test -count=1 " + (tests[0].strip() if tests else "./...")
     rc1, out1 = sh(cmd, cwd=wt); res["demo_fails_with_change"] = rc1 != 0
     sh(f"git apply -R {seed}/patch.diff", cwd=wt)
     rc2, out2 = sh(cmd, cwd=wt); res["demo_passes_without"] = rc2 == 0
     if rc2 != 0: res["demo_clean_output"] = out2[-600:]
     for fn, dst in copies:
-        os.remove(os.path.join(wt, dst))
+        os.remove(dst if os.path.isfile(dst) else os.path.join(dst, fn))
     sh(f"git apply {seed}/patch.diff", cwd=wt)
     res["checks"] = {}
     for c in checks:
